@@ -321,7 +321,8 @@ static void render_case(struct vp_report *rep, const struct sched_spec *ss, bool
     for (int i = 0; i < vs_nhist; i++) render_op(rep, i);
     if (steps) {
         vp_render(rep, "  shared accesses of the concurrent phase:\n");
-        vs_render_steps(rep, 0, vs_first_run_steps, name_addr);
+        vs_render_steps(rep, 0, vs_first_run_steps > 300 ? 300 : vs_first_run_steps, name_addr);
+        if (vs_first_run_steps > 300) vp_render(rep, "    ... (%u more steps)\n", vs_first_run_steps - 300);
     }
 }
 
